@@ -288,7 +288,11 @@ class ExactScopes:
 
     def is_exact(self, e: Expr) -> bool:
         """Whether *e*'s active scope rounds exactly, so it has no rounding yet."""
-        scope = self.ctx_use.find_scope_from_use(e)   # type: ignore[arg-type]
+        scope = self.ctx_use.use_to_scope.get(e)   # type: ignore[call-overload]
+        if scope is None:
+            # an operation in the header of a `with` is evaluated exactly but
+            # belongs to no scope: there is no block to give it a format in
+            return False
         ctx = scope.ctx if isinstance(scope.ctx, Context) else self.outer
         return ctx is REAL
 
